@@ -431,6 +431,23 @@ func (env *SpecEnv) quant(x *SQuant) Val {
 				ex.noteIx(n)
 			}
 		}
+		// hint(e) terms in the triggers: the skolem instance of e is made available as a ground
+		// hint fact, so that hypotheses triggered by hint() can be instantiated for it
+		for _, tr := range x.Triggers {
+			for _, te := range tr {
+				if call, ok := te.(*SCall); ok {
+					if id, ok := call.Fn.(*SIdent); ok && (id.Name == "hint" || id.Name == "hint2" || id.Name == "hint3") && len(call.Args) == 1 {
+						hc := c.nopol()
+						v := hc.eval(call.Args[0])
+						if v.S.Kind == KInt {
+							hn := sym(id.Name)
+							ex.w.declFun(hn, []*Sort{sInt}, sBool)
+							ex.goalIx = append(ex.goalIx, "("+hn+" "+v.T+")")
+						}
+					}
+				}
+			}
+		}
 		return Val{T: c.boolTerm(x.Body), S: sBool, Go: types.Typ[types.Bool]}
 	}
 	c := env.child()
